@@ -134,3 +134,22 @@ func dbgAdd(c *Ctx, r *Report) {
 	}
 	r.ok("dbg", "x", "")
 }
+
+func init() { register("DBGNEXT", "other", dbgNext) }
+
+func dbgNext(c *Ctx, r *Report) {
+	m, err := c.nextModel()
+	if err != nil {
+		fmt.Println("ERR", err)
+		return
+	}
+	fmt.Println("loop", m.HasLoop, "undecided", m.Undecided)
+	show := func(tag string, ps []nextPay) {
+		for i, p := range ps {
+			fmt.Printf("%s %d: pos=%s start=%s shift=%s len=%s kept=%v toEnd=%v app=%v recv=%v closed=%v doneSet=%q doneKnown=%q full=%q fullSlice=%s lp=%v/%v#%d decoded=%v(%s) left=%q problems=%v\n", tag, i, p.pos, p.start, p.shift, p.length, p.keptFrom, p.keptToEnd, p.appended, p.received, p.closed, p.doneSet, p.doneKnown, p.fullKnown, p.fullSlice, p.lpChunk, p.lpOff, p.lpCalls, p.decoded, p.decodeSlice, p.leftLoop, p.problems)
+		}
+	}
+	show("iter", m.Iter)
+	show("final", m.Final)
+	r.ok("dbg", "x", "")
+}
